@@ -78,6 +78,7 @@ Step ==
             /\ allDoneAt' = IF allDoneAt = -1 /\ Unfinished(ts) \subseteq {t} /\ ts[t] \in {"queued", "running"} THEN r.t ELSE allDoneAt
             /\ UNCHANGED <<scen, max, ordered, alive, ts, okrun, stored, prio, subseq, started, ps, stopOk, settled, nviol>>
        [] ev = "task_pop" -> UNCHANGED <<scen, max, ordered, alive, ts, okrun, canQ, canR, stored, prio, subseq, started, ps, stopOk, settled, allDoneAt, nviol>>
+       [] ev = "abandon" -> UNCHANGED <<scen, max, ordered, alive, ts, okrun, canQ, canR, stored, prio, subseq, started, ps, stopOk, settled, allDoneAt, nviol>>
        [] ev = "tstep" -> UNCHANGED <<scen, max, ordered, alive, ts, okrun, canQ, canR, stored, prio, subseq, started, ps, stopOk, settled, allDoneAt, nviol>>
        [] ev = "task_skip" ->
             LET t == r.task bad == t \notin canQ IN
